@@ -788,10 +788,39 @@ fn bend_project(rng: &mut Rng, p: &mut Project) -> Vec<String> {
                         // Derived vftable shorter / longer / reordered w.r.t. the base's.
                         if let Some(v) = vftable {
                             if !v.funcs.is_empty() {
-                                match rng.below(3) {
+                                match rng.below(6) {
                                     0 => {
                                         let k = rng.below(v.funcs.len());
                                         v.funcs.remove(k);
+                                    }
+                                    3 => {
+                                        // Same name, fewer / more / other arguments.
+                                        let k = rng.below(v.funcs.len());
+                                        match rng.below(3) {
+                                            0 => {
+                                                v.funcs[k].args.pop();
+                                            }
+                                            1 => v.funcs[k].args.push(("extra".into(), Ty::Prim("u8"))),
+                                            _ => {
+                                                if let Some(a) = v.funcs[k].args.first_mut() {
+                                                    a.1 = Ty::Prim("f64");
+                                                }
+                                            }
+                                        }
+                                    }
+                                    4 => {
+                                        // Same name, other return type / receiver / visibility.
+                                        let k = rng.below(v.funcs.len());
+                                        match rng.below(3) {
+                                            0 => {
+                                                v.funcs[k].ret = match v.funcs[k].ret {
+                                                    Some(_) => None,
+                                                    None => Some(Ty::Prim("u8")),
+                                                }
+                                            }
+                                            1 => v.funcs[k].recv = v.funcs[k].recv.map(|m| !m),
+                                            _ => v.funcs[k].vis = !v.funcs[k].vis,
+                                        }
                                     }
                                     1 => v.funcs.reverse(),
                                     _ => {
